@@ -14,6 +14,11 @@ CLAIMED = {
  'C05': ('proof', 'every exceptional exit of every merge carries the obligation that no heap location was written before the raise', '5/C05'),
  'C06': ('proof', 'per-iteration warning obligations (exactly one warning of the documented category iff the element is unresolvable / duplicate) and no-warning-when-applied clauses on all merges', '5/C06'),
  'C13': ('proof', 'ownership invariant (no element shared between message and running order), message child lists and tags never written, on all merges', '5/C13'),
+ 'C07': ('proof', 'RunningOrder.__add__ (completed guard for every message type through the abstract merge contract), RunningOrderEnd.merge (record added to the root, content untouched), no-spurious-completion clause on every merge, classification of a completed running order', '5/C07'),
+ 'C08': ('proof', 'MosFile._classify (table loop fully unrolled: complete), ElementAction._classify, from_string/from_file: class decided by the message element alone for both warning configurations (symbolic WERR), UnknownMosFileType / MosInvalidXML exactly when specified; file/str/bytes equality rests on the assumed parse contract', '5/C08'),
+ 'C09': ('proof', 'MosCollection.merge loop invariant + per-iteration ghost call log: exactly one add of the freshly restored message k per iteration, strict/non-strict warning and propagation clauses; __add__ against the abstract merge contract', '5/C09'),
+ 'C11': ('proof', 'MosCollection.__init__/_validate: accepted iff one roCreate, <=1 roDelete (exactly 1 unless allow_incomplete), equal roIDs, non-empty -- for symbolic list length and symbolic python -O flag; filtered comprehensions as monotone embeddings', '5/C11'),
+ 'C12': ('proof', 'safety obligations at every operation that can raise a built-in exception on every path of all merges, classification and constructors: only MosRoMgrException subclasses escape', '5/C12'),
 }
 REASON_TODO = 'check not built yet (build in progress); not a statement about reachability of the technique'
 m = {
